@@ -41,9 +41,12 @@ func c09(c *engine.Ctx) {
 	}
 	// Exp(recv, x, y, m): operands
 	op := func(e *ssa.Call, i int) ssa.Value { return engine.Unwrap(engine.Args(e.Common())[i]) }
-	setBytesOf := func(v ssa.Value, field string) bool {
+	// "innerData.GA" names a field of a message by the message's *type*
+	// (mt.ServerDHInnerData, mt.ClientDHInnerData, …), not by the local variable
+	// that happens to hold it: spec = "<TypeName>.<Field>".
+	setBytesOf := func(v ssa.Value, spec string) bool {
 		call := engine.CallOf(v)
-		return call != nil && engine.CalleeID(call.Common()) == "(*math/big.Int).SetBytes" && strings.HasSuffix(engine.Describe(engine.Args(call.Common())[1]), field)
+		return call != nil && engine.CalleeID(call.Common()) == "(*math/big.Int).SetBytes" && c09FieldOf(engine.Args(call.Common())[1], spec)
 	}
 	n1 := 0
 	// ---- client
@@ -51,7 +54,7 @@ func c09(c *engine.Ctx) {
 	var cFill ssa.CallInstruction
 	ce := exps(cl)
 	for _, e := range ce {
-		if setBytesOf(op(e, 1), "innerData.GA") {
+		if setBytesOf(op(e, 1), "ServerDHInnerData.GA") {
 			cKeyExp = e
 		} else {
 			cGB = e
@@ -70,12 +73,12 @@ func c09(c *engine.Ctx) {
 		c.Fail("C09.R1", "client/dh-shape", cl.Pos(), "the client flow must compute exactly two modular exponentiations (g_b and the key) and fill the key from the second (found %d)", len(ce))
 	} else {
 		sameB := op(cKeyExp, 2) == op(cGB, 2)
-		sameP := op(cKeyExp, 3) == op(cGB, 3) && setBytesOf(op(cGB, 3), "innerData.DhPrime")
-		okGA := setBytesOf(op(cKeyExp, 1), "innerData.GA")
+		sameP := op(cKeyExp, 3) == op(cGB, 3) && setBytesOf(op(cGB, 3), "ServerDHInnerData.DhPrime")
+		okGA := setBytesOf(op(cKeyExp, 1), "ServerDHInnerData.GA")
 		bCall := engine.CallOf(op(cGB, 2))
 		okB := bCall != nil && engine.CalleeID(bCall.Common()) == "crypto/rand.Int"
 		gCall := engine.CallOf(op(cGB, 1))
-		okG := gCall != nil && engine.CalleeID(gCall.Common()) == "math/big.NewInt" && strings.HasSuffix(engine.Describe(gCall.Common().Args[0]), "innerData.G")
+		okG := gCall != nil && engine.CalleeID(gCall.Common()) == "math/big.NewInt" && c09FieldOf(gCall.Common().Args[0], "ServerDHInnerData.G")
 		c.Check(sameB && sameP && okGA && okB && okG, "C09.R1", "client/key=g_a^b-mod-p", cKeyExp.Pos(), "key must be Exp(g_a, b, p) with the b and p of g_b = Exp(g, b, p); g, g_a, p from the server's inner data (same b: %v, same p: %v, g_a: %v, b random: %v, g: %v)", sameB, sameP, okGA, okB, okG)
 		// g_b sent is that exponentiation
 		n1++
@@ -135,7 +138,7 @@ func c09(c *engine.Ctx) {
 	} else {
 		okA := isResult(op(sKeyExp, 2), gaCall, 0)
 		okP := isResult(op(sKeyExp, 3), dpCall, 0) && isResult(gaCall.Common().Args[1], dpCall, 0)
-		okGB := setBytesOf(op(sKeyExp, 1), "clientInnerData.GB")
+		okGB := setBytesOf(op(sKeyExp, 1), "ClientDHInnerData.GB")
 		c.Check(okA && okP && okGB, "C09.R1", "server/key=g_b^a-mod-p", sKeyExp.Pos(), "key must be Exp(g_b, a, p) with the a of the GA draw and the p that draw used (a: %v, p: %v, g_b: %v)", okA, okP, okGB)
 		// what it sends: g, g_a, p of that draw
 		n1++
@@ -303,8 +306,8 @@ func c09(c *engine.Ctx) {
 			dsn := engine.Describe(sn)
 			cmpd := engine.GuardedBy(salt, func(k engine.Cmp) bool {
 				dx, dy := engine.Describe(k.X), engine.Describe(k.Y)
-				return k.Op == token.EQL && ((dx == dsn && strings.HasSuffix(dy, "res.ServerNonce")) || (dy == dsn && strings.HasSuffix(dx, "res.ServerNonce")))
-			}) || strings.HasSuffix(dsn, "res.ServerNonce")
+				return k.Op == token.EQL && ((dx == dsn && c09FieldOf(k.Y, "ResPQ.ServerNonce")) || (dy == dsn && c09FieldOf(k.X, "ResPQ.ServerNonce")))
+			}) || c09FieldOf(sn, "ResPQ.ServerNonce")
 			hn := false
 			for _, h := range engine.CallsTo(cl, false, "crypto.NonceHash1") {
 				if engine.Unwrap(h.Common().Args[0]) == engine.Unwrap(nn) {
@@ -350,7 +353,7 @@ func c09(c *engine.Ctx) {
 					}
 				}
 			})
-			okS = sentSN && hNN != nil && engine.Describe(nn) == engine.Describe(hNN) && strings.HasSuffix(engine.Describe(nn), "innerData.NewNonce")
+			okS = sentSN && hNN != nil && engine.Describe(nn) == engine.Describe(hNN) && c09FieldOf(nn, "PQInnerData.NewNonce")
 		}
 		c.Check(okS, "C09.R4", "server/salt-from-received-new-nonce-and-own-server-nonce", r.Pos(), "the server salt must be ServerSalt(new_nonce, server_nonce): the new_nonce received in p_q_inner_data (also the one hashed) and the server_nonce it sent in resPQ")
 	}
@@ -415,6 +418,41 @@ func cFillBytesGuard(c *engine.Ctx, rule string) {
 	if len(calls) == 0 {
 		c.Fail(rule, "crypto.FillBytes/size-guard-rounds-up", fb.Pos(), "crypto.FillBytes does not call big.Int.FillBytes")
 	}
+}
+
+// c09FieldOf: v is (a load of) field F of a value whose named type is T,
+// spec = "T.F" — whatever variable holds it.
+func c09FieldOf(v ssa.Value, spec string) bool {
+	i := strings.LastIndex(spec, ".")
+	typ, field := spec[:i], spec[i+1:]
+	v = engine.Unwrap(v)
+	var fa *ssa.FieldAddr
+	switch x := v.(type) {
+	case *ssa.UnOp:
+		if x.Op != token.MUL {
+			return false
+		}
+		fa, _ = x.X.(*ssa.FieldAddr)
+	case *ssa.FieldAddr:
+		fa = x
+	case *ssa.Field:
+		t := x.X.Type()
+		if n, ok := t.(*types.Named); ok && n.Obj().Name() == typ {
+			if st, isS := n.Underlying().(*types.Struct); isS && x.Field < st.NumFields() {
+				return st.Field(x.Field).Name() == field
+			}
+		}
+		return false
+	}
+	if fa == nil || engine.FieldNameOf(fa) != field {
+		return false
+	}
+	t := fa.X.Type()
+	if p, ok := t.Underlying().(*types.Pointer); ok {
+		t = p.Elem()
+	}
+	n, ok := t.(*types.Named)
+	return ok && n.Obj().Name() == typ
 }
 
 // c09LoadOf: v is (a load of) the alloc al.
